@@ -445,6 +445,18 @@ class Terms:
                     self._bind(t.id, copy.deepcopy(term), env, dirty)
                 else:
                     self._store(t, env, dirty)
+                    # PATH = local: from here on the local and PATH are the same object; the local becomes an alias
+                    # of the path (its own recipe is kept only until this point)
+                    if isinstance(st.value, ast.Name) and st.value.id in env and len(st.targets) == 1 \
+                            and not isinstance(env[st.value.id], (ast.Constant, ast.Name)) and access_path(env[st.value.id]) is None:
+                        tp = self.expand(t, env=env, dirty=set())
+                        if access_path(tp) is not None and not any(isinstance(x, ast.Name) and x.id == st.value.id for x in ast.walk(tp)):
+                            al = copy.deepcopy(tp)
+                            for x in ast.walk(al):
+                                if hasattr(x, "ctx"):
+                                    x.ctx = ast.Load()
+                            env[st.value.id] = al
+                            dirty.discard(st.value.id)
             return env, dirty
         if isinstance(st, ast.AnnAssign):
             if st.value is not None and isinstance(st.target, ast.Name):
@@ -726,8 +738,17 @@ class Terms:
                     seen = True
                     continue
                 if seen:
-                    if any(isinstance(n_, ast.Name) and n_.id in locs for n_ in ast.walk(s_)):
-                        return True
+                    for n_ in ast.walk(s_):
+                        # a store into the local, a mutating method on it, or handing it (itself) to a callee
+                        if isinstance(n_, (ast.Subscript, ast.Attribute, ast.Name)) and isinstance(getattr(n_, "ctx", None), (ast.Store, ast.Del)) \
+                                and root_name(n_) in locs:
+                            return True
+                        if isinstance(n_, ast.Call):
+                            f_ = n_.func
+                            if isinstance(f_, ast.Attribute) and isinstance(f_.value, ast.Name) and f_.value.id in locs and f_.attr not in PURE_METHODS:
+                                return True
+                            if any(isinstance(a_, ast.Name) and a_.id in locs for a_ in list(n_.args) + [k_.value for k_ in n_.keywords]):
+                                return True
                     continue
                 for f_ in ("body", "orelse", "finalbody"):
                     b_ = getattr(s_, f_, None)
